@@ -126,6 +126,13 @@ class Walker(object):
             raise LayoutError('%s is an array' % expr)
         if ty.kind == 'ref':
             want = 'struct ' + self.struct_of[(ty.module, ty.name)]
+            if m.ctype.base != want and isinstance(m.ctype.base, str) and m.ctype.base.startswith('struct '):
+                # the compiler may hand out the struct of an alias (B ::= T1) for a member declared T1:
+                # same definition, acceptable as long as it denotes the same type
+                doc = self.h.type_docs.get(m.ctype.base[7:])
+                if doc is not None and (doc[1], doc[0]) in self.spec.index and \
+                        self.spec.resolve(self.spec.index[(doc[1], doc[0])]) is self.spec.resolve(ty):
+                    want = m.ctype.base
             if m.ctype.base != want or m.ctype.ptr:
                 raise LayoutError('%s has type %r, expected %s' % (expr, m.ctype, want))
             return self.named_slot(self.spec.index[(ty.module, ty.name)], want[7:], expr + '.')
